@@ -4,6 +4,10 @@ def classify(sig, what):
     body = ' | '.join(parts[2:-1])
     if 'nondeterministic outcome' in sig:
         return 'ND1: the generator output for this target is not a function of its input: the same document sometimes yields code that builds and sometimes code that does not (map-iteration order inside the generator, see C07); observed e.g. on two-hop $ref chains (m.P == nil on a non-pointer alias) and on cli imports.'
+    if target == 'model' and 'poly>' in body:
+        return 'PB1: a discriminated base type used inside a composition other than a plain property or array property - member of an allOf next to a $ref, top-level array alias, additionalProperties next to declared properties, tuple item - is rendered by templates that treat the interface type like a struct (petField of an embedded member, methods on an interface receiver, pointer to interface, assignment to a getter): generate model exits 0 and the package does not compile (' + body + ': ' + msg + ').'
+    if target == 'model' and 'tuple' in body:
+        return 'TU1: a map whose values are a tuple (additionalProperties: {type: array, items: [..]}) makes generate model fail with a source-formatting error on its own output (the map value type is rendered empty): a plain valid document is refused (' + body + ').'
     if target == 'model' and not body.startswith('name:'):
         if 'undefined' in msg: return 'M3: an enum on a schema nested two anonymous levels deep (items of items, values of a map inside an array/map, a property of an inline allOf member) is validated by calling m.validate<Name>ItemsEnum / ...ValueEnum / validate<Prop>Enum, a method the model template only emits for first-level properties, items and values: "undefined"; generate model exits 0 and the package does not compile (' + body + ').'
         if 'redeclared' in msg: return 'M4: enum values made only of / differing only by punctuation ("<=", "a&b", ...) mangle to the same Go constant name: "redeclared"; generate model exits 0 and the package does not compile (' + body + ').'
